@@ -187,7 +187,7 @@ func (c counter) Enter(n js.INode) js.IVisitor { *c.n++; return c }
 func (c counter) Exit(n js.INode)              {}
 
 func corpus() map[string][]string {
-	c := lexers.HarvestLiterals("/repo")
+	c := lexers.HarvestLiterals(reg.Repo())
 	c["js"] = append(c["js"], "var a=1;function f(a,b){return a+b*2}", "class A extends B{constructor(){super()}#p=1;static{x}}", "for(let i=0;i<n;i++){if(a)b;else c}",
 		"x=`a${b}c`;y=a?.b??c;z=/re/g", "async function*g(){yield await a}", "while(a){b}",
 		"/*! one */\n/*! two */\n/*! three */\nfirst=1", "/*! banner */second=2;third=3", "/*! only */", "//! line\n/*! a */\n/*! b */\n/*! c */\nx")
